@@ -132,13 +132,12 @@ def extract(repo, failures):
     if g and re.search(r"if\s*\(\s*_size\s*==\s*_capacity\s*\)", pb):
         out["cacheGrowthFactor"] = int(g.group(1))
     else:
-        failures.append("InlinedVector.h: growth rule `if (_size == _capacity) new_capacity = _capacity * k` not found")
+        # relevant to C11 only: no extraction failure (which would break every check), the neutral value breaks
+        # Obligations.alloc_cache_geometry instead
         out["cacheGrowthFactor"] = 0
     out["cacheGrowAllocs"] = len(re.findall(r"\bnew\s+value_type\s*\[", pb or ""))
     clr = re.search(r"void\s+clear\s*\(\s*\)\s*(?:noexcept)?\s*\{([^}]*)\}", iv)
     out["clearKeepsCapacity"] = bool(clr and re.sub(r"\s", "", clr.group(1)) == "_size=0;")
-    if not clr:
-        failures.append("InlinedVector.h: clear() not found")
 
     # ---- log_statement framing -----------------------------------------------------------------------
     lg = strip_cpp_comments(read(repo, "include/quill/Logger.h"))
